@@ -97,7 +97,16 @@ pub fn c03_idempotent(input: &str, cfg: &Cfg) -> Vec<String> {
     let o1 = fmt(input, cfg);
     let o2 = fmt(&o1, cfg);
     if o1 != o2 {
-        vec!["c03: formatting the output again changes it".to_string()]
+        // classification: does the failure depend on the re-indentation of multi-line strings?
+        let mut off = cfg.clone();
+        off.fmt_mls = false;
+        let p1 = fmt(input, &off);
+        let p2 = fmt(&p1, &off);
+        if cfg.fmt_mls && p1 == p2 && input.contains("\'\'\'") {
+            vec!["c03: formatting the output again changes it (only with format_multiline_strings=true)".to_string()]
+        } else {
+            vec!["c03: formatting the output again changes it".to_string()]
+        }
     } else {
         vec![]
     }
@@ -108,6 +117,43 @@ pub fn c07_regions(input: &str, cfg: &Cfg) -> Vec<String> {
     let toks = lex_offsets(input);
     let regions = verbatim_regions(input, &toks);
     let mut fails = vec![];
+    // asm bodies: from the end of the `asm` keyword to the end of the last token before the closing `end`
+    {
+        let mut i = 0;
+        let mut from = 0usize;
+        while i < toks.len() {
+            if matches!(toks[i].kind, RawTokenType::Keyword(KeywordKind::Asm)) {
+                let mut j = i + 1;
+                while j < toks.len() && !matches!(toks[j].kind, RawTokenType::Keyword(KeywordKind::End) | RawTokenType::Eof) {
+                    j += 1;
+                }
+                if j > i + 1 && j < toks.len() && matches!(toks[j].kind, RawTokenType::Keyword(KeywordKind::End)) {
+                    // comments/directives directly before `end` are not part of an instruction line
+                    let mut last = j - 1;
+                    while last > i && matches!(toks[last].kind, RawTokenType::Comment(_) | RawTokenType::CompilerDirective | RawTokenType::ConditionalDirective(_)) {
+                        last -= 1;
+                    }
+                    let has_directive = toks[i + 1..j].iter().any(|t| matches!(t.kind, RawTokenType::ConditionalDirective(_)));
+                    // comments directly after `asm` are not part of an instruction line either
+                    let mut first = i + 1;
+                    while first < last && matches!(toks[first].kind, RawTokenType::Comment(_) | RawTokenType::CompilerDirective) {
+                        first += 1;
+                    }
+                    if last > i && first <= last && !has_directive && !matches!(toks[first].kind, RawTokenType::Comment(_) | RawTokenType::CompilerDirective) {
+                        let body = &input[toks[first].start + toks[first].ws_len..toks[last].end];
+                        match out[from..].find(body) {
+                            Some(p) => from += p + body.len(),
+                            None => {
+                                fails.push("c07: the instruction lines of an asm block are not reproduced byte for byte".to_string());
+                            }
+                        }
+                    }
+                }
+                i = j;
+            }
+            i += 1;
+        }
+    }
     // every region must appear byte for byte, in order, in the output
     let mut from = 0usize;
     for (a, b) in regions {
@@ -225,7 +271,7 @@ pub fn c08_canonical(input: &str, cfg: &Cfg, well_formed: bool) -> Vec<String> {
             let single_line = !content.contains('\n') && !content.contains('\r');
             let next_gap_has_nl = toks.get(i + 1).map_or(false, |n| out[n.start..n.start + n.ws_len].contains('\n'));
             if single_line && next_gap_has_nl && content.chars().last().map_or(false, is_blank_char) && !in_ranges(&pr, t.start + t.ws_len, t.end) {
-                fails.push(format!("c08: a line ends in blanks (inside a token of kind {:?})", t.kind));
+                fails.push(format!("c08: a line ends in blanks (inside a token of kind {:?}, last character U+{:04X})", t.kind, content.chars().last().map_or(0, |c| c as u32)));
             }
         }
     }
@@ -445,6 +491,26 @@ pub fn c15_cursors(input: &str, cfg: &Cfg, cursors: &[u32]) -> Vec<String> {
         fails.push("c15: requesting cursor tracking changes the formatted text".to_string());
     }
     let out = String::from_utf8(o1).unwrap();
+    // same-offset-in-same-token clause: tokens of input and output are matched by position when the
+    // two scans have the same number of tokens
+    let ti = lex_offsets(input);
+    let to = lex_offsets(&out);
+    if ti.len() == to.len() {
+        for (c_in, c_out) in cursors.iter().zip(cur.iter()) {
+            let ci = *c_in as usize;
+            // the token the cursor is inside of or at the end of (sticks to the earlier token)
+            if let Some((k, t)) = ti.iter().enumerate().find(|(_, t)| ci > t.start + t.ws_len && ci <= t.end) {
+                let a = &input[t.start + t.ws_len..t.end];
+                let b = &out[to[k].start + to[k].ws_len..to[k].end];
+                if a == b && !matches!(t.kind, RawTokenType::Eof) {
+                    let expect = to[k].start + to[k].ws_len + (ci - (t.start + t.ws_len));
+                    if *c_out as usize != expect {
+                        fails.push(format!("c15: cursor at offset {} of an unchanged {:?} token is reported at offset {} of it", ci - (t.start + t.ws_len), t.kind, *c_out as i64 - (to[k].start + to[k].ws_len) as i64));
+                    }
+                }
+            }
+        }
+    }
     for (c_in, c_out) in cursors.iter().zip(cur.iter()) {
         let co = *c_out as usize;
         if co > out.len() {
@@ -561,5 +627,93 @@ pub fn c02_rescan(input: &str, cfg: &Cfg) -> Vec<String> {
             break;
         }
     }
+    fails
+}
+
+
+pub fn c06_relayout(a: &str, b: &str, cfg: &Cfg) -> Vec<String> {
+    let oa = fmt(a, cfg);
+    let ob = fmt(b, cfg);
+    if oa != ob {
+        vec!["c06: two layouts of the same token sequence (same comments and blank-line groups) format differently".to_string()]
+    } else {
+        vec![]
+    }
+}
+
+/// C05: block structure of a grammar-generated program (marks from the generator; one lexer token per generated token)
+pub fn c05_structure(input: &str, cfg: &Cfg, marks: &[crate::gen::Mark], texts: &[String]) -> Vec<String> {
+    use crate::gen::Mark;
+    let mut fails = vec![];
+    let ti = lex_offsets(input);
+    if ti.len() != marks.len() + 1 {
+        return fails; // generated tokens do not map one-to-one to lexer tokens: not a case for this oracle
+    }
+    let out = fmt(input, cfg);
+    let to = lex_offsets(&out);
+    if to.len() != ti.len() {
+        return fails; // C02's business
+    }
+    let unit: usize = if cfg.use_tabs { 1 } else { cfg.tab_width as usize };
+    // first-on-line flag and indentation (in characters) of every output token
+    let mut first = vec![false; to.len()];
+    let mut indent = vec![0usize; to.len()];
+    let mut line_indent = 0usize;
+    for (i, t) in to.iter().enumerate() {
+        let gap = &out[t.start..t.start + t.ws_len];
+        if i == 0 || gap.contains('\n') {
+            first[i] = true;
+            line_indent = gap.rsplit('\n').next().unwrap_or("").chars().count();
+        }
+        indent[i] = line_indent;
+    }
+    let openers = ["begin", "repeat", "try", "except", "finally", "else", "const", "var", "type", "resourcestring", "private", "protected", "public", "published"];
+    for (i, m) in marks.iter().enumerate() {
+        let d = match m {
+            Mark::Start(d) | Mark::Closer(d) => *d,
+            Mark::BodyBegin(d) if cfg.begin_always => *d,
+            _ => continue,
+        };
+        // nearest preceding marked token of depth d-1 (opener) or depth d (sibling)
+        let find_prev = |depth: u16| -> Option<usize> {
+            (0..i).rev().find(|&j| match marks[j] {
+                Mark::Start(x) | Mark::Closer(x) | Mark::BodyBegin(x) => x == depth,
+                _ => false,
+            })
+        };
+        let opener = if d > 0 { find_prev(d - 1) } else { None };
+        let opener_text = opener.map(|j| texts[j].to_lowercase());
+        let in_listed_block = matches!(m, Mark::Start(_)) && opener_text.as_ref().map_or(false, |t| openers.contains(&t.as_str()))
+            // nothing between the opener and this token may close the opener's block: the opener is the nearest one
+            ;
+        let is_closer = matches!(m, Mark::Closer(_)) && ["end", "until", "except", "finally"].contains(&texts[i].to_lowercase().as_str());
+        let is_body_begin = matches!(m, Mark::BodyBegin(_));
+        if !(in_listed_block || is_closer || is_body_begin) {
+            continue;
+        }
+        if !first[i] {
+            fails.push(format!("c05: {:?} token {:?} does not start its own line", m, texts[i]));
+            continue;
+        }
+        if unit == 0 {
+            continue;
+        }
+        if in_listed_block {
+            let o = opener.unwrap();
+            if indent[i] != indent[o] + unit {
+                fails.push(format!("c05: statement/member {:?} is indented {} but the line of its opener {:?} is indented {}", texts[i], indent[i], texts[o], indent[o]));
+            }
+        } else if is_closer || is_body_begin {
+            // same indentation as the line of the matching opener: nearest previous marked token of the same depth
+            if let Some(o) = find_prev(d) {
+                if indent[i] != indent[o] {
+                    fails.push(format!("c05: {:?} is indented {} but its opener's line {:?} is indented {}", texts[i], indent[i], texts[o], indent[o]));
+                }
+            }
+        }
+    }
+    fails.sort();
+    fails.dedup();
+    fails.truncate(3);
     fails
 }
